@@ -332,7 +332,9 @@ class Fingerprint(object):
 
         new_fp = cls.from_indices(fp.indices, bits=fp.bits, level=fp.level)
         new_fp.update_props(fp.props)
-        for k, v in fp.folded_fingerprint.items():
+        # folds cached by a fingerprint of another kind hold that kind's values
+        cached = fp.folded_fingerprint if fp.__class__ is cls else {}
+        for k, v in cached.items():
             folded = v.__class__.from_fingerprint(v)
             folded.unfolded_fingerprint = new_fp
             if v.index_to_unfolded_index_dict is not None:
@@ -1079,7 +1081,9 @@ class CountFingerprint(Fingerprint):
         counts = dict([(i, c) for i, c in fp.counts.items() if c > 0])
         new_fp = cls.from_counts(counts, bits=fp.bits, level=fp.level)
         new_fp.update_props(fp.props)
-        for k, v in fp.folded_fingerprint.items():
+        # folds cached by a fingerprint of another kind hold that kind's values
+        cached = fp.folded_fingerprint if fp.__class__ is cls else {}
+        for k, v in cached.items():
             folded = v.__class__.from_fingerprint(v)
             folded.unfolded_fingerprint = new_fp
             if v.index_to_unfolded_index_dict is not None:
